@@ -246,14 +246,14 @@ func finish(eng *Engine, s *Suite, runs []*HarnessRun, known map[string]KnownFin
 	validated := 0
 	if !noValidate {
 		var items []replayItem
-		for _, hr := range runs {
+		for hi, hr := range runs {
 			if hr.h.NoNativeReplay {
 				continue
 			}
 			for i, v := range hr.validation {
 				dir := filepath.Join(verifDir, "replays", prop, "validate")
 				os.MkdirAll(dir, 0o755)
-				file := filepath.Join(dir, fmt.Sprintf("%s-%d.json", shortName(hr.h.Entry), i))
+				file := filepath.Join(dir, fmt.Sprintf("%s-h%d-%d.json", shortName(hr.h.Entry), hi, i))
 				v.Params = hr.h.cfg.Params
 				b, _ := json.MarshalIndent(v, "", " ")
 				os.WriteFile(file, b, 0o644)
